@@ -60,12 +60,18 @@ for m in sorted(glob.glob(V + '/seeded/*/meta.json')):
         summ = summ[:257] + '…'
     summ = summ.replace('|', '\\|')
     rep = det.get(name)
+    by = ''
+    if isinstance(rep, dict):
+        by = rep.get('checked_by', '')
+        rep = rep.get('reported')
     if rep is None:
         r = '(not run)'
     elif not rep:
         r = '**not detected**'
     else:
         r = '; '.join('`%s`' % x for x in rep[:4]) + (' …' if len(rep) > 4 else '')
+        if by and by != name[:3]:
+            r += ' (check of %s)' % by
     out.append('| %s | %s | %s |' % (name, summ, r))
 out.append('')
 
